@@ -35,7 +35,7 @@ OPS = [
  (r'\bcontinue;', 'break;'), (r'\bbreak;', 'continue;'), (r'\btrue\b', 'false'), (r'\bfalse\b', 'true'),
  (r'\.is_some\(\)', '.is_none()'), (r'\.is_none\(\)', '.is_some()'),
 ]
-SKIP = re.compile(r'^\s*(//|#\[|#!\[|use |pub use |assert|debug_assert)|panic!|unreachable!|println!|cfg\(')
+SKIP = re.compile(r'^\s*(//|#\[|#!\[|use |pub use |assert|debug_assert|impl\b|pub struct|struct |where\b|fn |pub fn |pub\(crate\) fn )|panic!|unreachable!|println!|cfg\(|: \'static|PrimInt|Unsigned|Debug \+|Hash \+')
 os.makedirs(out, exist_ok=True)
 rng = random.Random(seed)
 idx = []
